@@ -9,7 +9,7 @@ from typing import List, Tuple
 from pyopenapi_gen import IRSchema
 from pyopenapi_gen.context.render_context import RenderContext
 from pyopenapi_gen.core.utils import NameSanitizer
-from pyopenapi_gen.core.writers.python_construct_renderer import PythonConstructRenderer
+from pyopenapi_gen.core.writers.python_construct_renderer import PythonConstructRenderer, py_string_literal
 from pyopenapi_gen.helpers.type_resolution.finalizer import TypeFinalizer
 from pyopenapi_gen.types.services.type_service import UnifiedTypeService
 
@@ -380,7 +380,7 @@ converter.register_unstructure_hook({class_name}, _unstructure_{class_name.lower
             if isinstance(ps.default, str):
                 # ensure_ascii=False: json would spell a non-BMP character as a surrogate pair (\ud83d\ude00),
                 # which is a different string in Python source
-                escaped_inner_content = json.dumps(ps.default, ensure_ascii=False)[1:-1]
+                escaped_inner_content = py_string_literal(ps.default)[1:-1]
                 return '"' + escaped_inner_content + '"'
             elif isinstance(ps.default, bool):
                 return str(ps.default)
